@@ -49,7 +49,7 @@ def build_rule(d):
     doc = {"title": d["title"], "logsource": d.get("logsource") or {"category": "test"}, "detection": det}
     if d.get("id"):
         doc["id"] = d["id"]
-    for k in ("tags", "references", "status", "level"):
+    for k in ("tags", "references", "status", "level", "name"):
         if d.get(k):
             doc[k] = d[k]
     for k, v in (d.get("custom") or {}).items():
@@ -160,4 +160,49 @@ def run_coll(case):
         pure["modelled_issues_independent_of_other_validators"] = mod5 == mod1
     res["pure"] = pure
     res["n_all_issues"] = len(m5)
+    return res
+
+
+def _modelled(cissues):
+    return [[n, rs, f.get(MODELLED[n]) if MODELLED[n] else None] for n, rs, f in cissues if n in MODELLED]
+
+
+PER_RULE = ("DanglingDetectionIssue", "DanglingConditionIssue", "IdentifierExistenceIssue")
+
+
+def run_shared(case):
+    """ONE SigmaValidator (explicit instance order) over rules that share ids / titles / file names and
+    selector patterns; the same collection is validated twice by the same validator objects.  Also: every
+    rule alone with fresh validator objects (what the rule must be told, whatever came before it)."""
+    order = case["order"]
+    vs = case["vs"]
+    rules = build(case)
+    seq = [rules[i] for i in order]
+    v = make_validator(vs, case)
+    first = canon_issues(v.validate_rules(seq), rules)
+    second = canon_issues(v.validate_rules(seq), rules)
+    res = {"issues": _modelled(first), "issues2": _modelled(second)}
+    flags = {}
+    # per rule, fresh validator objects
+    alone = []
+    for i in order:
+        fresh = build(case)
+        alone += [x for x in canon_issues(make_validator(vs, case).validate_rules([fresh[i]]), fresh) if x[0] in PER_RULE]
+    flags["per_rule_issues_same_as_fresh_validators_per_rule"] = multiset(alone) == multiset([x for x in first if x[0] in PER_RULE])
+    flags["per_rule_issues_same_in_second_run"] = multiset([x for x in first if x[0] in PER_RULE]) == multiset([x for x in second if x[0] in PER_RULE])
+    # single validator objects (no SigmaValidator): validate() rule by rule in this order, then the reverse order
+    # with fresh objects: the per-rule issues must be the same multiset
+    def direct(idx):
+        rs = build(case)
+        out = []
+        objs = [BUILTIN[n]() for n in vs]
+        for i in idx:
+            for o in objs:
+                out += canon_issues(o.validate(rs[i]), rs)
+        return multiset([x for x in out if x[0] in PER_RULE])
+    if not case["excl"]:
+        flags["validator_objects_order_of_rules_irrelevant"] = direct(order) == direct(order[::-1])
+        flags["validator_objects_same_as_sigma_validator"] = direct(order) == multiset([x for x in first if x[0] in PER_RULE])
+    flags["dict_same_after_two_validations"] = [repr(r.to_dict()) for r in rules] == [repr(r.to_dict()) for r in build(case)]
+    res["pure"] = flags
     return res
